@@ -131,6 +131,9 @@ def scenario(cfg, n_resume, seed2):
         ks = sorted(set(np.linspace(0, len(saves) - 1, n_resume).astype(int).tolist()))
         for k in ks:
             sv = saves[k]
+            import multiprocessing as mp
+            from tvf import idblob
+            idblob.SHARED = mp.Value("q", 0)      # cross-process evaluation counter (integer pools evaluate in workers)
             s3, t3, like3, pt3 = _build(c, tmp)
             np.random.seed(seed2 + k)
             try:
@@ -161,8 +164,9 @@ def scenario(cfg, n_resume, seed2):
             calls = [int(x) for x in H3["calls"]]
             if any(b < a for a, b in zip(calls, calls[1:])) or (T3 > hl and calls[hl] <= calls[hl - 1]):
                 out["bad"].append(("resume-call-count", f"call counter does not continue: {calls[max(0, hl - 2):hl + 2]}"))
-            if T3 > hl and like3.n_points != calls[-1] - sv["calls"]:
-                out["bad"].append(("resume-call-count", f"calls grew by {calls[-1] - sv['calls']} after resume but the likelihood saw {like3.n_points} points"))
+            seen3 = int(idblob.SHARED.value)
+            if T3 > hl and seen3 != calls[-1] - sv["calls"]:
+                out["bad"].append(("resume-call-count", f"calls grew by {calls[-1] - sv['calls']} after resume but the likelihood saw {seen3} points"))
             betas = [float(b) for b in H3["beta"]]
             if any(b < a for a, b in zip(betas, betas[1:])):
                 out["bad"].append(("resume-beta-decreases", f"beta decreases after resume: {betas[max(0, hl - 2):hl + 2]}"))
